@@ -626,6 +626,57 @@ def binary_worker(job):
     return part.dump()
 
 
+SESSION_SCENARIOS = [('p2tr-script', s) for s in ('valid', 'annex', 'many-checks', 'many-checks-annex', 'wrong-key', 'extra-witness-item')] + \
+                    [('p2tr-key', s) for s in ('valid', 'annex', 'annex-unsigned', 'hashtype-single', 'wrong-key', 'wrong-amount')]
+
+
+def session_worker(job):
+    """Schnorr checks the way a user reaches them: a `--tx/--txin` session of a taproot spend.  The budget a tapscript starts with
+    (serialized witness INCLUDING the annex + 50), the digest's annex / leaf commitments and the per-check charge are then set up by
+    the session code, not by this check's harness: the C03 scenario builder, driver and judge are reused for the single-input
+    taproot scenarios under the standard flags (initial weight, step trace and verdict against the reference)."""
+    bindir, idx, n = job
+    from checks import c03
+    rng = sub_rng(PROP, 'sess', idx)
+    part = Partial()
+    wd = scratch('c02s')
+    try:
+        scs = []
+        for i in range(n):
+            otype, sat = SESSION_SCENARIOS[(idx * n + i) % len(SESSION_SCENARIOS)]
+            try:
+                sc = c03.build(rng, otype, sat)
+            except Exception as e:
+                part.inconc('session-builder:%s/%s:%s' % (otype, sat, type(e).__name__))
+                continue
+            sc['otype'], sc['sat'] = otype, sat
+            sc['flags'], sc['flagmod'] = STANDARD, 'standard'
+            sc['select'] = -1 if rng.random() < 0.5 else sc['idx']
+            sc['id'] = 's%d.%d' % (idx, i)
+            scs.append(sc)
+        events, crashes, hangs = run_harness_cases(bindir, [(sc['id'], c03.scenario_cmds(sc['id'], sc, sc['select'])) for sc in scs], wd)
+        for cr in crashes:
+            part.violation('session:crash:' + cr.key, dict(id=cr.case_id, log=cr.log[-1500:]))
+        for sc in scs:
+            sub = Partial()
+            c03.judge(sc, c03.parse_events(events.get(sc['id'], [])), sub)
+            part.evaluations += 1
+            part.count('sessions', '%s/%s' % (sc['otype'], sc['sat']))
+            for k, w in sub.violations:
+                part.violation('session:' + k, w)
+            for k, v in sub.inconclusive.items():
+                part.inconclusive['session:' + k] += v
+            for t, cnt in sub.tables.items():
+                if t == 'scenarios':
+                    for k, v in cnt.items():
+                        part.count('session-verdicts', k, v)
+            if not sub.violations:
+                part.nontrivial.add(nt_hash('sess', sc['otype'], sc['sat'], rtx.ser_tx(sc['tx'])))
+    finally:
+        cleanup_scratch(wd)
+    return part.dump()
+
+
 def main():
     ap = argparse.ArgumentParser()
     ap.add_argument('--tier', default=os.environ.get('VERIF_TIER', 'quick'))
@@ -643,6 +694,8 @@ def main():
     for r in parallel(worker, [(bindir, i, n) for i in range(32)]):
         rep.merge(r)
     for r in parallel(binary_worker, [(bindir, i, 25 if a.tier == 'quick' else 400) for i in range(16)]):
+        rep.merge(r)
+    for r in parallel(session_worker, [(bindir, i, 36 if a.tier == 'quick' else 900) for i in range(16)]):
         rep.merge(r)
     nd = rep.tables.get('signature_checks', {}).get('digests_compared', 0)
     return rep.finish(
